@@ -381,17 +381,18 @@ func sameList(a, b []string) bool {
 	return true
 }
 
-// offersGzip: does the Accept-Encoding value offer gzip (gzip, x-gzip or * with a q-value > 0)?
-func offersGzip(ae string) bool {
+// offers: does the Accept-Encoding value offer the coding? An element naming the coding (or its
+// alias x-gzip) decides - offered iff its q-value is > 0; only when no element names it does a
+// "*" element with q > 0 offer it. (An absent header offers nothing here: casket only picks a
+// coding the client named.)
+func offers(ae, coding string) bool {
 	if ae == "absent" {
 		return false
 	}
+	named, namedOK, star := false, false, false
 	for _, el := range strings.Split(ae, ",") {
 		parts := strings.Split(el, ";")
 		name := strings.ToLower(strings.TrimSpace(parts[0]))
-		if name != "gzip" && name != "x-gzip" && name != "*" {
-			continue
-		}
 		q := 1.0
 		for _, p := range parts[1:] {
 			p = strings.TrimSpace(p)
@@ -401,12 +402,23 @@ func offersGzip(ae string) bool {
 				}
 			}
 		}
-		if q > 0 {
-			return true
+		switch {
+		case name == coding || (coding == "gzip" && name == "x-gzip"):
+			named = true
+			if q > 0 {
+				namedOK = true
+			}
+		case name == "*" && q > 0:
+			star = true
 		}
 	}
-	return false
+	if named {
+		return namedOK
+	}
+	return star
 }
+
+func offersGzip(ae string) bool { return offers(ae, "gzip") }
 
 // judge evaluates the statement on the pair (plain site, gzip site). Returns violated clauses
 // and whether the gzip site really added a gzip coding.
@@ -438,6 +450,17 @@ func judge(c *gcase, o0, o1 obs) (bad []string, compressed bool) {
 	compressed = !sameList(o0.CE, o1.CE) && len(o1.CE) > 0 && o1.CE[len(o1.CE)-1] == "gzip"
 	if !offersGzip(c.AE) && !sameList(o0.CE, o1.CE) {
 		add("IdentityIfNotOffered")
+	}
+	if c.Inner.Kind == "static" {
+		// the coding of a static response is casket's own choice (a precompressed sibling): it
+		// must be one the client offered, with or without the gzip block
+		for _, o := range []obs{o0, o1} {
+			for _, ce := range o.CE {
+				if ce != "identity" && !offers(c.AE, ce) {
+					add("IdentityIfNotOffered")
+				}
+			}
+		}
 	}
 	switch {
 	case len(o0.CE) > 0:
